@@ -62,6 +62,8 @@ def conformance(rep, quick, lang="en"):
                             f.write(json.dumps(cur, ensure_ascii=False) + "\n")
                             index.append(step["text"])
                         cur = None
+                    elif e["e"] in ("claim", "scan"):
+                        continue          # the tokenizers' claims belong to the Claims layer (props/claims_part.py)
                     elif cur is not None:
                         cur["evs"].append({"e": e["e"], "rule": e["rule"], "toks": e.get("toks", [])})
                         rewrites += e["e"] == "apply"
